@@ -105,6 +105,13 @@ def body_set(ch, ctx):
             ok = view == want[0]
         ctx.check(ok, "view-differs", sig, key=key, value=v, view=repr(view))
         ctx.check(f[key] == view, "feature-getitem-differs-from-attributes", sig, key=key)
+        # every way of looking at the mapping shows the same view
+        a = f.attributes
+        other = dict(items=dict(a.items()).get(key), values=list(a.values())[list(a.keys()).index(key)], get=a.get(key),
+                     iteration=[a[k] for k in a][list(a).index(key)])
+        bad = sorted(k for k, x in other.items() if x != view or type(x) is not type(view))
+        ctx.check(not bad, "views-of-one-mapping-disagree", dict(sig, via=",".join(bad)), key=key, getitem=repr(view),
+                  others={k: repr(x) for k, x in other.items()})
         printed_here = str(f)
         tup_here = f.astuple()
         json_here = helpers._jsonify(f.attributes)
@@ -132,7 +139,7 @@ def body_set(ch, ctx):
 def body_json(ch, ctx):
     _, n, v0 = ctx.shard
     vals = [VALUES[v0]] + [ch.choose("v%d" % i, VALUES) for i in range(1, n)]
-    keys = ["kβ", "a b", "Z"][:n]
+    keys = (["kβ", "a b", "Z"] if v0 % 2 == 0 else ["self", "kwargs", "__class__"])[:n]      # odd: names with a meaning in Python
     m = {}
     for k, v in zip(keys, vals):
         m[k] = [v] if isinstance(v, str) else list(v)
